@@ -2,6 +2,7 @@
 use super::util::*;
 use crate::bridge::*;
 use crate::driver::CheckDef;
+use crate::ensure;
 use crate::gen;
 use crate::refmodel::*;
 use crate::runner::*;
@@ -19,6 +20,15 @@ pub fn reserialise_oracle(b: &[u8], case: &mut Case) -> Result<bool, Fail> {
     };
     case.class("accepted");
     let o1 = lib("observe", || observe(&p1))?;
+    // the writer-based entry points serialise too: for a quarter of the accepted inputs every writer kind (vectors,
+    // cursors at non-zero origins and over pre-filled storage, short-write writers, fixed slices) must produce the
+    // bytes of the vector-returning entry points
+    if b.len() % 4 == 0 && b.len() < 4096 {
+        if let (Ok(Ok(refp)), Ok(Ok(refc))) = (lib("build_bytes_vec", || p1.build_bytes_vec()), lib("build_bytes_vec_compressed", || p1.build_bytes_vec_compressed())) {
+            case.class("writers-compared");
+            super::c04::writers(&p1, &refp, &refc, 1 + b.len() % 5, case, false).map_err(|f| Fail::new(f.sig.replace("c04:", "c11:writer-"), format!("re-serialising a parsed packet: {}; input {}", f.msg, hex(&b[..b.len().min(120)]))))?;
+        }
+    }
     for compressed in [false, true] {
         let what = if compressed { "build_bytes_vec_compressed" } else { "build_bytes_vec" };
         let out = if compressed { lib(what, || p1.build_bytes_vec_compressed())? } else { lib(what, || p1.build_bytes_vec())? };
@@ -186,16 +196,61 @@ fn check_mutated(input: &super::c01::Mutated, case: &mut Case) -> Result<(), Fai
 pub fn def() -> CheckDef {
     CheckDef {
         id: "C11",
-        rule: "parser-accepted byte strings from: (1) reference encodings of packets with arbitrary (foreign) compression, unknown types, empty RDATA, any 4-bit opcode, any response code (12-bit with EDNS), OPT at any additional index, stray OPT records in any section (also twice, also a twin of the EDNS record differing only in its TTL flag bits), NSEC records with windows out of order (accepted or not); (1b) suffix-sharing messages with filler that puts names beyond offset 16383; (2) all 65536 header words on a valid compressed message; (3) the accepted part of mutated encodings. Oracle: parse -> build_bytes_vec / build_bytes_vec_compressed succeeds -> parse succeeds -> every observable field equal (id, flags, opcode(), rcode(), EDNS, sections, every record field). Non-trivial = accepted by the parser and >= 1 entry (mutated: >= 1 mutation)",
+        rule: "parser-accepted byte strings from: (1) reference encodings of packets with arbitrary (foreign) compression, unknown types, empty RDATA, any 4-bit opcode, any response code (12-bit with EDNS), OPT at any additional index, stray OPT records in any section (also twice, also a twin of the EDNS record differing only in its TTL flag bits), NSEC records with windows out of order (accepted or not); (1b) suffix-sharing messages with filler that puts names beyond offset 16383; (1c) 200..700 records whose owner (and NS target) is a pointer to one 64..255-byte name: 5 KB messages whose plain form reaches 360 KB; (2) all 65536 header words on a valid compressed message; (3) the accepted part of mutated encodings. Oracle: parse -> build_bytes_vec / build_bytes_vec_compressed succeeds -> parse succeeds -> every observable field equal; for a quarter of the accepted inputs the writer-based entry points (all writer kinds of C04) must produce the same bytes (id, flags, opcode(), rcode(), EDNS, sections, every record field). Non-trivial = accepted by the parser and >= 1 entry (mutated: >= 1 mutation)",
         assumptions: vec!["observation = public accessors + byte hooks; opcode()/rcode() compared as the caller sees them (unnamed values show as Reserved)"],
         sections: vec![
             Box::new(ReplayOnly { name: "fuzz-bytes", check: check_raw }),
             Box::new(PropSection { name: "reference", rule: "reference encodings, foreign layouts", strategy, cases: (300_000, 4_000_000), check }),
             Box::new(PropSection { name: "large", rule: "suffix-sharing messages crossing 16 KiB", strategy: large_strategy, cases: (60_000, 600_000), check: check_large }),
+            Box::new(EnumSection { name: "expanding", rule: "small compressed messages whose plain form exceeds 64 KiB", enumerate: enum_expanding, check: check_expanding, exhaustive: true }),
             Box::new(EnumSection { name: "words", rule: "all header words", enumerate: enum_words, check: check_word, exhaustive: true }),
             Box::new(PropSection { name: "mutated", rule: "accepted mutated encodings", strategy: super::c01::mutated_strategy, cases: (300_000, 4_000_000), check: check_mutated }),
         ],
     }
+}
+
+/// small received messages that expand past 64 KiB once their names are written in full: N records whose owner is a
+/// pointer to one long name. (records, wire length of the shared name, compress RDATA names too?)
+fn enum_expanding(_t: Tier, shard: usize, n: usize, f: &mut dyn FnMut((u16, u8, bool)) -> bool) {
+    let mut i = 0;
+    for count in [200u16, 248, 260, 300, 400, 700] {
+        for name_len in [255u8, 251, 200, 128, 64] {
+            for ns in [false, true] {
+                i += 1;
+                if mine(i, shard, n) && !f((count, name_len, ns)) {
+                    return;
+                }
+            }
+        }
+    }
+}
+
+fn check_expanding(input: &(u16, u8, bool), case: &mut Case) -> Result<(), Fail> {
+    let (count, name_len, ns) = *input;
+    // labels of 31 bytes until the wire length is reached
+    let mut labels: Vec<Bytes> = Vec::new();
+    let mut wire = 1usize;
+    while wire + 32 <= name_len as usize {
+        labels.push(Bytes(vec![b'a' + (labels.len() % 26) as u8; 31]));
+        wire += 32;
+    }
+    let rem = name_len as usize - wire;
+    if rem >= 2 {
+        labels.push(Bytes(vec![b'z'; rem - 1]));
+    }
+    let owner = AName(labels);
+    let mut p = APacket { id: 0x1111, flags: 0x8400, ..Default::default() };
+    for k in 0..count {
+        let rdata = if ns { ARData::Typed { code: 2, fields: vec![Val::Name(owner.clone())] } } else { ARData::Typed { code: 1, fields: vec![Val::U32(k as u32)] } };
+        p.answers.push(ARecord { name: owner.clone(), class: 1, cache_flush: false, ttl: k as u32, rdata });
+    }
+    let m = encode_message(&p, &EncOpts::compressed());
+    let plain_size = 12 + count as usize * (owner.wire_len() + 10 + if ns { owner.wire_len() } else { 4 });
+    case.class(if plain_size > 65535 { "expands-past-64k" } else { "expands-below-64k" });
+    let accepted = reserialise_oracle(&m, case)?;
+    ensure!(accepted, "c11:expanding-rejected", "a well-formed compressed message of {} bytes ({} records under one {}-byte name) was rejected", m.len(), count, name_len);
+    case.nontrivial = true;
+    Ok(())
 }
 
 fn check_raw(b: &Bytes, case: &mut Case) -> Result<(), Fail> {
